@@ -1270,6 +1270,33 @@ func BuildScript(asserts []*Term, intVars bool) *Script {
 			if a.Name == "fmul" && len(a.Args) == 2 {
 				fmt.Fprintf(&sb, "(assert (=> %s (= %s %s)))\n", eqs([]int{1, 0}), ra, rb)
 			}
+			// monotonicity of the correctly rounded operations (IEEE 754):
+			// conversions and roundings are monotone; x*s and x/s are monotone
+			// in x for a common positive s.
+			a1, b1 := ref(a.Args[0]), ref(b.Args[0])
+			switch a.Name {
+			case "i2f_s":
+				fmt.Fprintf(&sb, "(assert (=> (bvsle %s %s) (fp.leq %s %s)))\n", a1, b1, ra, rb)
+				fmt.Fprintf(&sb, "(assert (=> (bvsle %s %s) (fp.leq %s %s)))\n", b1, a1, rb, ra)
+			case "i2f_u":
+				fmt.Fprintf(&sb, "(assert (=> (bvule %s %s) (fp.leq %s %s)))\n", a1, b1, ra, rb)
+				fmt.Fprintf(&sb, "(assert (=> (bvule %s %s) (fp.leq %s %s)))\n", b1, a1, rb, ra)
+			case "ufp.round", "ufp.floor", "ufp.ceil", "ufp.trunc":
+				fmt.Fprintf(&sb, "(assert (=> (fp.leq %s %s) (fp.leq %s %s)))\n", a1, b1, ra, rb)
+				fmt.Fprintf(&sb, "(assert (=> (fp.leq %s %s) (fp.leq %s %s)))\n", b1, a1, rb, ra)
+			case "fdiv", "fmul":
+				if len(a.Args) == 2 {
+					a2, b2 := ref(a.Args[1]), ref(b.Args[1])
+					pos := "(and (= " + a2 + " " + b2 + ") (fp.lt " + fpLit(0) + " " + a2 + ") (not (fp.isInfinite " + a2 + ")))"
+					fmt.Fprintf(&sb, "(assert (=> (and %s (fp.leq %s %s)) (fp.leq %s %s)))\n", pos, a1, b1, ra, rb)
+					fmt.Fprintf(&sb, "(assert (=> (and %s (fp.leq %s %s)) (fp.leq %s %s)))\n", pos, b1, a1, rb, ra)
+					if a.Name == "fmul" {
+						pos1 := "(and (= " + a1 + " " + b1 + ") (fp.lt " + fpLit(0) + " " + a1 + ") (not (fp.isInfinite " + a1 + ")))"
+						fmt.Fprintf(&sb, "(assert (=> (and %s (fp.leq %s %s)) (fp.leq %s %s)))\n", pos1, a2, b2, ra, rb)
+						fmt.Fprintf(&sb, "(assert (=> (and %s (fp.leq %s %s)) (fp.leq %s %s)))\n", pos1, b2, a2, rb, ra)
+					}
+				}
+			}
 		}
 	}
 	for _, a := range asserts {
